@@ -92,6 +92,21 @@ func (r *Run) mateShapeOf(name string) *mateShape {
 
 // parentGene: t is <parent>.Genes[i]; returns 1 for the receiver, 2 for the other parent, and the index value.
 func (s *mateShape) parentGene(v ssa.Value) (int, ssa.Value) {
+	which, idx := s.parentGeneByTerm(v)
+	if which == 0 {
+		// an element of a tail of a parent's gene list (`rest := g.Genes; ... rest[0]; rest = rest[1:]`)
+		if ld, ok := v.(*ssa.UnOp); ok && ld.Op == token.MUL {
+			if ia, ok := ld.X.(*ssa.IndexAddr); ok {
+				if w := s.c04RestList(ia.X); w != 0 {
+					return w, ia.Index
+				}
+			}
+		}
+	}
+	return which, idx
+}
+
+func (s *mateShape) parentGeneByTerm(v ssa.Value) (int, ssa.Value) {
 	t := s.tm.Of(v)
 	if t.Op != "elem" || len(t.Args) < 2 {
 		return 0, nil
@@ -1036,9 +1051,62 @@ func (r *Run) c04StepTable(s *mateShape) {
 			}
 		}
 	}
+	// The other form of a cursor: not an index into the parent's gene list but the LIST of the parent's genes that are
+	// still to be visited (`rest := g.Genes`), whose head is the current gene and which is advanced by dropping the head
+	// (`rest = rest[1:]`). c04RestList establishes that every value the variable can hold is the parent's list or a tail
+	// (x[k:]) of a value it held before, so rest == g.Genes[i:] for the number i of genes dropped so far. The facts of
+	// the index form translate one to one: `i >= len(g.Genes)` is `len(rest) == 0`, `i < len(g.Genes)` is `len(rest) > 0`,
+	// g.Genes[i] is rest[0], i+1 is rest[1:], i == 0 is rest == g.Genes (the whole list).
+	rest := map[*ssa.Phi]bool{}
+	for _, ph := range HeaderPhis(s.walk) {
+		if _, isSl := ph.Type().Underlying().(*types.Slice); !isSl {
+			continue
+		}
+		switch s.c04RestList(ph) {
+		case 1:
+			if i1 == nil {
+				i1, rest[ph] = ph, true
+			}
+		case 2:
+			if i2 == nil {
+				i2, rest[ph] = ph, true
+			}
+		}
+	}
 	if i1 == nil || i2 == nil {
 		r.Undecided(s.name+".cursors", p.Pos(s.fn.Pos()), "cannot find the two cursors of the gene walk")
 		return
+	}
+	// curFact: what a branch outcome says about a cursor against its parent's gene count, as a relation mask
+	curFact := func(g Guard, ph *ssa.Phi, isLen func(ssa.Value) bool) (int, bool) {
+		if rest[ph] {
+			switch LenZeroFact(g.Cond, g.True, func(v ssa.Value) bool { return stripCT(v) == ssa.Value(ph) }) {
+			case 1:
+				return c04EQ, true // no gene left: the cursor stands at the parent's gene count
+			case -1:
+				return c04LT, true
+			}
+			return 0, false
+		}
+		_, _, m, ok := c04OrderFact(g.Cond, g.True, func(v ssa.Value) bool { return v == ssa.Value(ph) }, isLen)
+		return m, ok
+	}
+	// atCursor: v (a parent gene read at index idx, see parentGene) is the gene at the cursor
+	atCursor := func(v, idx ssa.Value, ph *ssa.Phi) bool {
+		if rest[ph] {
+			ld, ok := v.(*ssa.UnOp)
+			if !ok || ld.Op != token.MUL {
+				return false
+			}
+			ia, ok := ld.X.(*ssa.IndexAddr)
+			if !ok || stripCT(ia.X) != ssa.Value(ph) {
+				return false
+			}
+			k, isK := constInt(ia.Index)
+			_, isC := ia.Index.(*ssa.Const)
+			return isK && isC && k == 0
+		}
+		return idx == ssa.Value(ph)
 	}
 	// the fitter-parent flag: a bool phi defined outside the walk and tested inside it
 	var pb *ssa.Phi
@@ -1091,6 +1159,19 @@ func (r *Run) c04StepTable(s *mateShape) {
 	for _, ph := range []*ssa.Phi{i1, i2} {
 		for i, e := range ph.Edges {
 			if s.walk.Blocks[ph.Block().Preds[i]] {
+				continue
+			}
+			if rest[ph] {
+				// the whole gene list of the parent, not a part of it
+				alts := tm.Of(e).Alternatives()
+				for _, a := range alts {
+					if !(a.Op == "field" && a.Name == "Genes" && c04ParentOf(tm, a.Args[0]) != 0) {
+						okStart = false
+					}
+				}
+				if _, isSl := stripCT(e).(*ssa.Slice); isSl || len(alts) == 0 {
+					okStart = false
+				}
 				continue
 			}
 			if k, isK := constInt(e); !isK || k != 0 {
@@ -1163,8 +1244,6 @@ func (r *Run) c04StepTable(s *mateShape) {
 	}
 	r.Check(okDef && nDef >= 1, s.name+".p1better.definition", p.Pos(pb.Pos()), "first parent is fitter iff f1 > f2, or f1 == f2 and it has fewer genes", "the fitter-parent flag is not (fitness1 > fitness2) || (fitness1 == fitness2 && len(g.Genes) < len(og.Genes)): "+why)
 	// decision table
-	isI1 := func(v ssa.Value) bool { return v == ssa.Value(i1) }
-	isI2 := func(v ssa.Value) bool { return v == ssa.Value(i2) }
 	cursorState := func(mask int) int {
 		switch {
 		case mask&c04LT == 0:
@@ -1219,10 +1298,10 @@ func (r *Run) c04StepTable(s *mateShape) {
 		m1, m2 := c04LT|c04EQ|c04GT, c04LT|c04EQ|c04GT
 		pbv := 0
 		for _, g := range ip.Conds {
-			if _, _, m, ok := c04OrderFact(g.Cond, g.True, isI1, isLen1); ok {
+			if m, ok := curFact(g, i1, isLen1); ok {
 				m1 &= m
 			}
-			if _, _, m, ok := c04OrderFact(g.Cond, g.True, isI2, isLen2); ok {
+			if m, ok := curFact(g, i2, isLen2); ok {
 				m2 &= m
 			}
 			if f, w, ok := boolFlagOf(g.Cond); ok && f == ssa.Value(pb) {
@@ -1285,6 +1364,20 @@ func (r *Run) c04StepTable(s *mateShape) {
 		skip := ip.ResolveAt(s.skip1)
 		n1, n2 := ip.ResolveAt(latchVal(i1)), ip.ResolveAt(latchVal(i2))
 		adv := func(n ssa.Value, ph *ssa.Phi) int {
+			if rest[ph] {
+				// the list is kept, or its head is dropped: rest[1:]
+				if stripCT(n) == ssa.Value(ph) {
+					return 0
+				}
+				if sl, ok := stripCT(n).(*ssa.Slice); ok && stripCT(sl.X) == ssa.Value(ph) && c04IsTail(sl) {
+					if k, isK := sl.Low.(*ssa.Const); isK {
+						if c, isI := constInt(k); isI && c == 1 {
+							return 1
+						}
+					}
+				}
+				return -1
+			}
 			if n == ssa.Value(ph) {
 				return 0
 			}
@@ -1317,15 +1410,15 @@ func (r *Run) c04StepTable(s *mateShape) {
 			var wantA1, wantA2 int
 			switch kind {
 			case "excess2", "disjoint2":
-				okChoice = who == 2 && idx == ssa.Value(i2)
+				okChoice = who == 2 && atCursor(chosen, idx, i2)
 				wantA1, wantA2 = 0, 1
 				wantSkip = pbv
 			case "excess1", "disjoint1":
-				okChoice = who == 1 && idx == ssa.Value(i1)
+				okChoice = who == 1 && atCursor(chosen, idx, i1)
 				wantA1, wantA2 = 1, 0
 				wantSkip = -pbv
 			case "match":
-				okChoice = isAvg || (who == 1 && idx == ssa.Value(i1)) || (who == 2 && idx == ssa.Value(i2))
+				okChoice = isAvg || (who == 1 && atCursor(chosen, idx, i1)) || (who == 2 && atCursor(chosen, idx, i2))
 				wantA1, wantA2 = 1, 1
 				wantSkip = -1
 			}
@@ -1387,10 +1480,10 @@ func (r *Run) c04StepTable(s *mateShape) {
 					have := map[string]bool{}
 					for _, g := range condsAt(b, sx) {
 						// the fact `cursor >= count` in any spelling (i1 < size1 taken false, size1 > i1 taken false, i1 >= size1 ...)
-						if _, _, m, ok := c04OrderFact(g.Cond, g.True, isI1, isLen1); ok && cursorState(m) == 1 {
+						if m, ok := curFact(g, i1, isLen1); ok && cursorState(m) == 1 {
 							have["1"] = true
 						}
-						if _, _, m, ok := c04OrderFact(g.Cond, g.True, isI2, isLen2); ok && cursorState(m) == 1 {
+						if m, ok := curFact(g, i2, isLen2); ok && cursorState(m) == 1 {
 							have["2"] = true
 						}
 					}
